@@ -370,6 +370,10 @@ def rule_pairing(ctx, repo):
     else:
         if 'j += size' in texts and any(t.startswith('size =') for t in texts) and texts.index('j += size') > [k for k, t in enumerate(texts) if t.startswith('size =')][0]:
             r.violated('offset-then-halve', common.site_of(f, w), 'the level offset is advanced by the *new* size: statements %s' % texts)
+        elif len(tail) == 2 and texts[0] == 'j = size' and texts[1].startswith('size ='):
+            # the offset of a level is the sum of the sizes of all levels below it; `j = size` is that only for the second level
+            r.violated('offset-then-halve', common.site_of(f, tail[0]), 'the level offset is set to the size of the level just read (`j = size`) instead of advanced by it: from the third level on the '
+                       'pairs are taken from the wrong part of the tree (five or more leaves)', sure=True)
         else:
             r.undecided('offset-then-halve', common.site_of(f, w), 'level bookkeeping is %s' % texts)
     init = {norm(n.targets[0]): norm(n.value) for n in f.node.body if isinstance(n, ast.Assign)}
